@@ -1,2 +1,290 @@
+//! T4: the range checks of `validate_pdb` (src/validate.rs) -> Gen/ValidateTable.v
+//!
+//! Accepted shape: nested `for x in y.<children>()` loops; inside them
+//!   if <cond> { errors.push(PDBError::new(ErrorLevel::<L>, "<short>", ...)) }
+//!   if let Some(v) = x.<optional accessor>() { <ifs on v> }
+//!   if let Some((a, b)) = conformer.modification() { <ifs on a, b> }
+//! with <cond> a disjunction of comparisons `<subject> > LIT`, `<subject> < LIT`, `>=`, `<=` (either operand order),
+//! where <subject> is `x.<accessor>()` or `x.<accessor>().len()` or `v.len()`.
+//! Every check becomes one row: (field, [(op, bound)...], level, short).
+use crate::util::*;
+use quote::ToTokens;
 use std::path::Path;
-pub fn generate(_repo: &Path) -> Result<String, String> { Err("not implemented".into()) }
+use syn::*;
+
+#[derive(Clone)]
+struct Row {
+    field: String,
+    bounds: Vec<(String, String)>, // (Coq constructor Gt/Lt/Ge/Le, bound term)
+    level: String,
+    short: String,
+}
+
+struct Cx {
+    vars: Vec<(String, String)>, // variable -> field prefix it denotes (e.g. "alt_loc" -> "ConfAlt")
+    rows: Vec<Row>,
+}
+
+type R<T> = std::result::Result<T, String>;
+
+fn field_of(var_ty: &str, accessor: &str, len: bool) -> R<String> {
+    let f = match (var_ty, accessor, len) {
+        ("model", "serial_number", false) => "VModelSerial",
+        ("chain", "id", true) => "VChainIdLen",
+        ("residue", "serial_number", false) => "VResSerial",
+        ("conformer", "name", true) => "VConfNameLen",
+        ("atom", "name", true) => "VAtomNameLen",
+        ("atom", "serial_number", false) => "VAtomSerial",
+        ("atom", "charge", false) => "VAtomCharge",
+        ("atom", "occupancy", false) => "VAtomOcc",
+        ("atom", "b_factor", false) => "VAtomB",
+        ("atom", "x", false) => "VAtomX",
+        ("atom", "y", false) => "VAtomY",
+        ("atom", "z", false) => "VAtomZ",
+        _ => return Err(format!("unknown validated subject {var_ty}.{accessor}{}", if len { ".len()" } else { "" })),
+    };
+    Ok(f.to_string())
+}
+
+fn lit_bound(e: &Expr) -> R<String> {
+    match e {
+        Expr::Lit(ExprLit { lit: Lit::Int(i), .. }) => Ok(format!("(BInt {})", i.base10_digits())),
+        Expr::Lit(ExprLit { lit: Lit::Float(f), .. }) => float_bound(f.base10_digits(), false),
+        Expr::Unary(u) if matches!(u.op, UnOp::Neg(_)) => match &*u.expr {
+            Expr::Lit(ExprLit { lit: Lit::Int(i), .. }) => Ok(format!("(BInt (-{}))", i.base10_digits())),
+            Expr::Lit(ExprLit { lit: Lit::Float(f), .. }) => float_bound(f.base10_digits(), true),
+            _ => Err("negated non-literal".into()),
+        },
+        Expr::Paren(p) => lit_bound(&p.expr),
+        other => Err(format!("bound is not a literal: {}", other.to_token_stream())),
+    }
+}
+
+/// a float literal: its decimal text and the exact binary64 value (m * 2^e, m odd) that rustc gives it
+fn float_bound(digits: &str, neg: bool) -> R<String> {
+    let v: f64 = digits.parse().map_err(|_| format!("float literal {digits}"))?;
+    let v = if neg { -v } else { v };
+    let bits = v.to_bits();
+    let sign: i128 = if bits >> 63 == 1 { -1 } else { 1 };
+    let exp = ((bits >> 52) & 0x7ff) as i64;
+    let frac = (bits & 0xf_ffff_ffff_ffff) as i128;
+    let (mut m, mut e) = if exp == 0 { (frac, -1074i64) } else { (frac | (1i128 << 52), exp - 1075) };
+    if m == 0 {
+        e = 0;
+    }
+    while m != 0 && m & 1 == 0 {
+        m >>= 1;
+        e += 1;
+    }
+    let text = format!("{}{}", if neg { "-" } else { "" }, digits);
+    Ok(format!("(BFloat {} ({}) ({}))", coq_str(&text), sign * m, e))
+}
+
+impl Cx {
+    fn subject(&self, e: &Expr) -> R<String> {
+        // x.acc() | x.acc().len() | v.len() | v
+        match e {
+            Expr::Paren(p) => self.subject(&p.expr),
+            Expr::MethodCall(m) if m.args.is_empty() => {
+                let name = m.method.to_string();
+                if name == "len" {
+                    match &*m.receiver {
+                        Expr::MethodCall(inner) if inner.args.is_empty() => {
+                            let v = inner.receiver.to_token_stream().to_string();
+                            let ty = self.var_kind(&v)?;
+                            field_of(&ty, &inner.method.to_string(), true)
+                        }
+                        Expr::Path(p) => {
+                            let v = p.to_token_stream().to_string();
+                            let k = self.var_kind(&v)?;
+                            Ok(format!("{k}Len"))
+                        }
+                        other => Err(format!("len of {}", other.to_token_stream())),
+                    }
+                } else {
+                    let v = m.receiver.to_token_stream().to_string();
+                    let ty = self.var_kind(&v)?;
+                    field_of(&ty, &name, false)
+                }
+            }
+            other => Err(format!("subject {}", other.to_token_stream())),
+        }
+    }
+    fn var_kind(&self, v: &str) -> R<String> {
+        self.vars.iter().rev().find(|(n, _)| n == v).map(|(_, k)| k.clone()).ok_or(format!("unknown variable {v}"))
+    }
+    fn cond(&self, e: &Expr, field: &mut Option<String>, out: &mut Vec<(String, String)>) -> R<()> {
+        match e {
+            Expr::Paren(p) => self.cond(&p.expr, field, out),
+            Expr::Binary(b) => {
+                let op = b.op.to_token_stream().to_string();
+                if op == "||" {
+                    self.cond(&b.left, field, out)?;
+                    return self.cond(&b.right, field, out);
+                }
+                let (subj, bound, flip) = if let Ok(bd) = lit_bound(&b.right) {
+                    (self.subject(&b.left)?, bd, false)
+                } else {
+                    (self.subject(&b.right)?, lit_bound(&b.left)?, true)
+                };
+                let c = match (op.as_str(), flip) {
+                    (">", false) | ("<", true) => "Gt",
+                    ("<", false) | (">", true) => "Lt",
+                    (">=", false) | ("<=", true) => "Ge",
+                    ("<=", false) | (">=", true) => "Le",
+                    _ => return Err(format!("operator {op}")),
+                };
+                match field {
+                    Some(f) if *f != subj => return Err(format!("one check on two subjects ({f}, {subj})")),
+                    _ => *field = Some(subj),
+                }
+                out.push((c.to_string(), bound));
+                Ok(())
+            }
+            other => Err(format!("condition {}", other.to_token_stream())),
+        }
+    }
+    fn push_row(&mut self, cond: &Expr, then: &Block) -> R<()> {
+        // the body must be exactly one errors.push(PDBError::new(ErrorLevel::X, "short", ...))
+        if then.stmts.len() != 1 {
+            return Err("check body with several statements".into());
+        }
+        let call = match &then.stmts[0] {
+            Stmt::Expr(Expr::MethodCall(m), _) if m.method == "push" && m.args.len() == 1 => &m.args[0],
+            _ => return Err("check body is not errors.push(..)".into()),
+        };
+        let args = match call {
+            Expr::Call(c) if c.func.to_token_stream().to_string().replace(' ', "").ends_with("PDBError::new") => &c.args,
+            _ => return Err("pushed value is not PDBError::new(..)".into()),
+        };
+        if args.len() < 2 {
+            return Err("PDBError::new arity".into());
+        }
+        let level = match &args[0] {
+            Expr::Path(p) => p.path.segments.last().map(|s| s.ident.to_string()).ok_or("level")?,
+            _ => return Err("level is not a path".into()),
+        };
+        let short = match &args[1] {
+            Expr::Lit(ExprLit { lit: Lit::Str(s), .. }) => s.value(),
+            _ => return Err("short description is not a literal".into()),
+        };
+        let mut field = None;
+        let mut bounds = Vec::new();
+        self.cond(cond, &mut field, &mut bounds)?;
+        self.rows.push(Row { field: field.ok_or("no subject")?, bounds, level, short });
+        Ok(())
+    }
+    fn stmts(&mut self, stmts: &[Stmt]) -> R<()> {
+        for st in stmts {
+            match st {
+                Stmt::Expr(e, _) => self.stmt_expr(e)?,
+                Stmt::Local(_) => return Err("let binding inside the validation loops".into()),
+                _ => return Err("item or macro inside the validation loops".into()),
+            }
+        }
+        Ok(())
+    }
+    fn stmt_expr(&mut self, e: &Expr) -> R<()> {
+        match e {
+            Expr::ForLoop(f) => {
+                let var = f.pat.to_token_stream().to_string();
+                // for x in y.children()
+                let kind = match &*f.expr {
+                    Expr::MethodCall(m) if m.args.is_empty() => match m.method.to_string().as_str() {
+                        "models" => "model",
+                        "chains" => "chain",
+                        "residues" => "residue",
+                        "conformers" => "conformer",
+                        "atoms" => "atom",
+                        other => return Err(format!("loop over {other}()")),
+                    },
+                    other => return Err(format!("loop source {}", other.to_token_stream())),
+                };
+                self.vars.push((var, kind.to_string()));
+                let r = self.stmts(&f.body.stmts);
+                self.vars.pop();
+                r
+            }
+            Expr::If(i) => {
+                if i.else_branch.is_some() {
+                    return Err("if/else inside the validation loops".into());
+                }
+                if let Expr::Let(l) = &*i.cond {
+                    // if let Some(pat) = x.accessor()
+                    let (recv, acc) = match &*l.expr {
+                        Expr::MethodCall(m) if m.args.is_empty() => (m.receiver.to_token_stream().to_string(), m.method.to_string()),
+                        other => return Err(format!("if let source {}", other.to_token_stream())),
+                    };
+                    let ty = self.var_kind(&recv)?;
+                    let inner: Vec<(String, String)> = match (&*l.pat, ty.as_str(), acc.as_str()) {
+                        (Pat::TupleStruct(ts), "residue", "insertion_code") if ts.elems.len() == 1 => {
+                            vec![(ts.elems[0].to_token_stream().to_string(), "VResIcode".into())]
+                        }
+                        (Pat::TupleStruct(ts), "conformer", "alternative_location") if ts.elems.len() == 1 => {
+                            vec![(ts.elems[0].to_token_stream().to_string(), "VConfAlt".into())]
+                        }
+                        (Pat::TupleStruct(ts), "conformer", "modification") if ts.elems.len() == 1 => match &ts.elems[0] {
+                            Pat::Tuple(t) if t.elems.len() == 2 => vec![
+                                (t.elems[0].to_token_stream().to_string(), "VModName".into()),
+                                (t.elems[1].to_token_stream().to_string(), "VModComment".into()),
+                            ],
+                            _ => return Err("modification pattern".into()),
+                        },
+                        _ => return Err(format!("if let on {ty}.{acc}()")),
+                    };
+                    let n = inner.len();
+                    self.vars.extend(inner);
+                    let r = self.stmts(&i.then_branch.stmts);
+                    for _ in 0..n {
+                        self.vars.pop();
+                    }
+                    r
+                } else {
+                    self.push_row(&i.cond, &i.then_branch)
+                }
+            }
+            other => Err(format!("statement {}", other.to_token_stream().to_string().chars().take(80).collect::<String>())),
+        }
+    }
+}
+
+pub fn generate(repo: &Path) -> R<String> {
+    let f = parse_rs(repo, "src/validate.rs")?;
+    let func = find_fn(&f, "validate_pdb").ok_or("fn validate_pdb not found")?;
+    // expected frame: `let mut errors = validate(pdb);` ... loops ... `errors`
+    let stmts = &func.block.stmts;
+    if stmts.len() < 3 {
+        return Err("validate_pdb body too short".into());
+    }
+    match &stmts[0] {
+        Stmt::Local(l) => {
+            let init = l.init.as_ref().map(|i| i.expr.to_token_stream().to_string().replace(' ', "")).unwrap_or_default();
+            if init != "validate(pdb)" {
+                return Err(format!("validate_pdb does not start from validate(pdb): {init}"));
+            }
+        }
+        _ => return Err("first statement of validate_pdb is not a let".into()),
+    }
+    match stmts.last() {
+        Some(Stmt::Expr(Expr::Path(p), None)) if p.to_token_stream().to_string() == "errors" => {}
+        _ => return Err("validate_pdb does not end with `errors`".into()),
+    }
+    let mut cx = Cx { vars: vec![("pdb".into(), "pdb".into())], rows: vec![] };
+    // the outermost loop runs over pdb.models()
+    cx.stmts(&stmts[1..stmts.len() - 1])?;
+    let mut s = String::new();
+    s.push_str("(* GENERATED by translators/rs2coq (T4) from src/validate.rs (validate_pdb). Do not edit. *)\n");
+    s.push_str("From Coq Require Import List String ZArith.\nFrom PV Require Import Spec.ValidateSpec.\nImport ListNotations.\nOpen Scope string_scope.\n");
+    s.push_str("Definition validate_rules : list vrule := [\n");
+    let rows: Vec<String> = cx
+        .rows
+        .iter()
+        .map(|r| {
+            let bs: Vec<String> = r.bounds.iter().map(|(c, b)| format!("(C{c}, {b})")).collect();
+            format!("  mk_vrule {} [{}] V{} {}", r.field, bs.join("; "), r.level, coq_str(&r.short))
+        })
+        .collect();
+    s.push_str(&rows.join(";\n"));
+    s.push_str("\n].\n");
+    Ok(s)
+}
